@@ -119,7 +119,7 @@ def r9_5(cx):
     from . import c05, c17
     from .util import compose
     from . import c10
-    compose(cx, [('R5.3', c05.r5_3), ('R5.4', c05.r5_4), ('R5.7', c05.r5_7), ('R5.8', c05.r5_8), ('R5.9', c05.r5_9), ('R10.6', c10.zero_count_loop, 1), ('R17.6', c17.r17_6), ('R17.7', c17.r17_7)])
+    compose(cx, [('R5.3', c05.r5_3), ('R5.4', c05.r5_4), ('R5.6', c05.r5_6), ('R5.7', c05.r5_7), ('R5.8', c05.r5_8), ('R5.9', c05.r5_9), ('R10.6', c10.zero_count_loop, 1), ('R17.6', c17.r17_6), ('R17.7', c17.r17_7)])
 
 
 RULES = [('R9.1', r9_1), ('R9.2', r9_2), ('R9.3', r9_3), ('R9.4', r9_4), ('R9.5', r9_5)]
